@@ -9,6 +9,7 @@ CONSTANTS
   Sinces = {0, 2}
   OpenCids = {"o1"}
   MaxTrades = 1
+  ClockSlack = FALSE
   IdSlack = 0
   MaxLen = 1
 INVARIANT Emit
